@@ -3,7 +3,7 @@
    Statements only. *)
 From Coq Require Import NArith List Bool.
 From LC Require Import Bits Types BitboardModel MoveModel ZobristModel PositionModel MakeModel FenModel
-  Spec.Rules Refine.Abs Refine.Board Refine.Make Refine.Wf Refine.MakeAbs MakeFacts HashFacts FenFacts.
+  Spec.Rules Refine.Abs Refine.Board Refine.Make Refine.Wf Refine.MakeAbs Refine.SpecFits MakeFacts HashFacts FenFacts.
 Import ListNotations.
 Local Open Scope N_scope.
 
@@ -13,6 +13,9 @@ Theorem C05_makemove : forall K p m, wf p = true -> rooks_ok p ->
   mfits (cell_of p) (turn p) m (rook_from_get p (side_to_N (turn p) * 2)) (rook_from_get p (side_to_N (turn p) * 2 + 1)) ->
   hash_ok K p -> hash_ok K (makemove K p m).
 Proof. exact makemove_hash_ok. Qed.
+Theorem C05_every_legal_move : forall K dfrc p m, wf p = true -> rooks_ok p -> legal_consistent dfrc (abs p) = true ->
+  In m (spec_moves (abs p)) -> hash_ok K p -> hash_ok K (makemove K p m).
+Proof. exact (fun K dfrc p m Hwf Hr Hlc Hin => makemove_hash_ok K p m Hwf Hr (spec_moves_fit dfrc p m Hr Hlc Hin)). Qed.
 Theorem C05_makenull : forall K p, wf p = true -> hash_ok K p -> hash_ok K (makenull K p).
 Proof. exact makenull_hash_ok. Qed.
 Theorem C05_undomove : forall K p m, move_fields_ok p m -> hash_ok K p -> hash_ok K (undomove (makemove K p m)).
@@ -32,5 +35,5 @@ Theorem C05_position_only : forall K p q, wf p = true -> wf q = true ->
   calculate_hash K p = calculate_hash K q.
 Proof. exact calculate_hash_position_only. Qed.
 
-Print Assumptions C05_set_fen. Print Assumptions C05_makemove. Print Assumptions C05_makenull. Print Assumptions C05_undomove.
+Print Assumptions C05_set_fen. Print Assumptions C05_makemove. Print Assumptions C05_every_legal_move. Print Assumptions C05_makenull. Print Assumptions C05_undomove.
 Print Assumptions C05_undonull. Print Assumptions C05_reachable. Print Assumptions C05_position_only.
